@@ -238,8 +238,47 @@ def write_evidence(pid, tier, seed, mod, results, metas, wall, violations=(), kn
         'rule': 'one evaluation = one CBMC obligation (contract clause, loop-invariant base/step, assigns, memory-safety or '
                 'arithmetic check) generated from the lowered text of the current /repo sources',
     }
+    auto = []
+    def add(a):
+        if a not in auto:
+            auto.append(a)
+    for r in results:
+        g = r.group
+        for f in g.replace:
+            add(f'contract of {f} is ASSUMED at its call sites in group(s) that replace it (goto-instrument --replace-call-with-contract); it is an unchecked assumption unless another group enforces it')
+        for f in g.stub:
+            add(f'contract of {f} is ASSUMED at its call sites (contract stub generated by the lowering: requires asserted, assigns havocked, ensures assumed); unchecked unless another group decides it on the function body')
+        if g.skeleton:
+            add('E3 control-flow skeleton: all data except the tracked tags / facets is arbitrary (over-approximation); a failed skeleton obligation counts only when the native replay reproduces it')
+        if g.kind == 'bounded' and g.bound:
+            add(f'bounded stand-in, not a proof beyond the bound: {g.name}: {g.bound}')
+    spec_texts = {}
+    for u, m in metas.items():
+        sp = os.path.join(ROOT, 'contracts', u + '.spec')
+        txt = open(sp).read() if os.path.exists(sp) else (open(os.path.join(ROOT, 'contracts', u + '.skel')).read() if os.path.exists(os.path.join(ROOT, 'contracts', u + '.skel')) else '')
+        spec_texts[u] = txt
+        if 'std::unordered_map' in txt or 'single-key' in txt or '_index(' in open(os.path.join(os.environ.get('VERIF_BUILD') or os.path.join(ROOT, 'build'), u + '.c')).read():
+            add(f'unit {u}: associative containers in the single-key view (at most the entry of the key the function uses; key values are not compared; other entries are untouched frame)')
+        if 'path_model text' in txt:
+            add(f'unit {u}: std::filesystem::path modelled as its POSIX text (filename() = text after the last "/")')
+        if 'ast_errors tolerate' in txt:
+            add(f'unit {u}: clang 14 reports errors in this translation unit that g++ does not; the AST is used and every lowered function is checked to be free of error-recovery nodes')
+        if '@slice' in txt:
+            add(f'unit {u}: statement slices of large functions are lowered as functions; the statements between and around the slices are NOT under contract')
+        if '@lambda' in txt:
+            add(f'unit {u}: a lambda of a large function is lowered on its own; its call site is NOT under contract')
+        built = open(os.path.join(os.environ.get('VERIF_BUILD') or os.path.join(ROOT, 'build'), u + '.c')).read()
+        if 'cxx_oss' in built:
+            add(f'unit {u}: std::ostringstream formatting by the CXX_OSS model of libmodel/cxxmodel.h (trusted)')
+        if 'cxx_clock_now' in built:
+            add(f'unit {u}: std::chrono clocks read a ghost variable set by the harness (one reading per call, chosen symbolically)')
+        if 'lock object dropped' in built or 'sequential semantics' in built:
+            add(f'unit {u}: locks are dropped and std::atomic is its value: sequential semantics (data races are out of scope, C36)')
+        if 'cxx_nondet' in built or 'cxx_rng' in built:
+            add(f'unit {u}: random engines / random_device draws are arbitrary values (freshness and distribution are not modelled)')
+    add('machine integers are bit-precise (CBMC); std::bad_alloc is assumed not to occur; destructors of containers are not modelled')
     ev = {'property_id': pid, 'tier': tier if tier in ('quick', 'thorough') else 'quick', 'seed': seed, 'level': level,
-          'coverage': cov, 'assumptions': meta.get('assumptions', []) + [f'bounded: {b}' for b in bounded],
+          'coverage': cov, 'assumptions': meta.get('assumptions', []) + auto,
           'wall_s': round(wall, 2), 'violations': len(violations)}
     OUT = os.environ.get('VERIF_OUT') or ROOT
     os.makedirs(os.path.join(OUT, 'evidence'), exist_ok=True)
